@@ -1228,4 +1228,96 @@ theorem buildHistory_inv {f : Func} {ops : List BOp} {ident : Nat} {w : Func}
     · rw [if_pos hn] at h; exact ⟨fb, rfl, hn, (Except.ok.inj h).symm⟩
     · rw [if_neg hn] at h; cases h
 
+/-! ### `expected`, exactly: what is there afterwards -/
+
+theorem mem_keys_of_posSig_eq {fb : FB} {l : List (Name × Option Val)} (h : fb.posSig = l) :
+    fb.args = l.map Prod.fst := by
+  rw [← h, FB.posSig, attach_names]
+
+/-- a whole `expected` list that is accepted: taking the new names away again gives back the
+    positional parameters as they were (order, defaults); every new name is there with exactly
+    the default asked for; the new names are pairwise distinct and none of them was a positional
+    or keyword-only parameter before -/
+theorem expectAll_exact {fb fb' : FB} (wf : WfFB fb) (exp : List (Name × Option Val))
+    (h : expectAll fb exp = .ok fb') :
+    fb'.posSig.filter (keyNotIn (exp.map Prod.fst)) = fb.posSig ∧
+      (∀ zd ∈ exp, get? zd.1 fb'.posSig = some zd.2) ∧
+      (exp.map Prod.fst).Nodup ∧
+      (∀ z ∈ exp.map Prod.fst, z ∉ fb.args ∧ z ∉ fb.kwonlyargs) := by
+  induction exp generalizing fb with
+  | nil =>
+    simp only [expectAll, Except.ok.injEq] at h; subst h
+    refine ⟨?_, by simp, by simp, by simp⟩
+    apply List.filter_eq_self.mpr; intro p _; simp [keyNotIn]
+  | cons zd zs ih =>
+    obtain ⟨z, d⟩ := zd
+    by_cases hz : z ∈ fb.args ∨ z ∈ fb.kwonlyargs
+    · simp only [expectAll, addArg_existing d hz] at h; cases h
+    · have hz1 : z ∉ fb.args := fun h => hz (Or.inl h)
+      have hz2 : z ∉ fb.kwonlyargs := fun h => hz (Or.inr h)
+      have hzp : z ∉ fb.posSig.map Prod.fst := by rw [FB.posSig, attach_names]; exact hz1
+      -- one step: fb1 with `z` somewhere among the positional parameters
+      have hstep : ∃ fb1, fb.addArg z d = .ok fb1 ∧ WfFB fb1 ∧
+          fb1.posSig.filter (keyNe z) = fb.posSig ∧ get? z fb1.posSig = some d ∧
+          (∀ a ∈ fb.args, a ∈ fb1.args) ∧ z ∈ fb1.args ∧ fb1.kwonlyargs = fb.kwonlyargs := by
+        cases d with
+        | none =>
+          obtain ⟨fb1, pre, post, hr, wf1, hp0, hp1, _, _, hk, _⟩ := addArg_none wf hz1 hz2
+          have hzpre : z ∉ pre.map Prod.fst := fun hm => hzp (by rw [hp0, List.map_append]; exact List.mem_append_left _ hm)
+          have hzpost : z ∉ post.map Prod.fst := fun hm => hzp (by rw [hp0, List.map_append]; exact List.mem_append_right _ hm)
+          have hkw : fb1.kwonlyargs = fb.kwonlyargs := by
+            have := congrArg (List.map Prod.fst) hk
+            rwa [FB.kwSig, FB.kwSig, kwAttach_names, kwAttach_names] at this
+          refine ⟨fb1, hr, wf1, ?_, ?_, ?_, ?_, hkw⟩
+          · rw [hp1, hp0, List.filter_append, List.filter_cons_of_neg (by simp [keyNe]),
+              filter_keyNe_of_not_mem hzpre, filter_keyNe_of_not_mem hzpost]
+          · rw [hp1, get?_append, get?_eq_none_of_not_mem hzpre, get?_cons, if_pos rfl]; rfl
+          · intro a ha
+            rw [mem_keys_of_posSig_eq hp1]
+            rw [mem_keys_of_posSig_eq hp0] at ha
+            simp only [List.map_append, List.map_cons, List.mem_append, List.mem_cons] at ha ⊢
+            rcases ha with ha | ha
+            · exact Or.inl ha
+            · exact Or.inr (Or.inr ha)
+          · rw [mem_keys_of_posSig_eq hp1]; simp
+        | some v =>
+          obtain ⟨fb1, hr, wf1, hp1, hk, _⟩ := addArg_some wf v hz1 hz2
+          have hkw : fb1.kwonlyargs = fb.kwonlyargs := by
+            have := congrArg (List.map Prod.fst) hk
+            rwa [FB.kwSig, FB.kwSig, kwAttach_names, kwAttach_names] at this
+          refine ⟨fb1, hr, wf1, ?_, ?_, ?_, ?_, hkw⟩
+          · rw [hp1, List.filter_append, filter_keyNe_of_not_mem hzp]
+            simp [keyNe]
+          · rw [hp1, get?_append, get?_eq_none_of_not_mem hzp, get?_cons, if_pos rfl]; rfl
+          · intro a ha
+            rw [mem_keys_of_posSig_eq hp1, List.map_append, FB.posSig, attach_names]
+            exact List.mem_append_left _ ha
+          · rw [mem_keys_of_posSig_eq hp1]; simp
+      obtain ⟨fb1, hr, wf1, hfil, hget, hsub, hzin, hkw⟩ := hstep
+      simp only [expectAll, hr] at h
+      obtain ⟨ih1, ih2, ih3, ih4⟩ := ih wf1 h
+      obtain ⟨_, _, _, _, hd⟩ := expectAll_spec wf1 zs h
+      have hznot : z ∉ zs.map Prod.fst := fun hm => (ih4 z hm).1 hzin
+      refine ⟨?_, ?_, ?_, ?_⟩
+      · show fb'.posSig.filter (keyNotIn (z :: zs.map Prod.fst)) = fb.posSig
+        rw [← filter_keyNe_keyNotIn, List.filter_filter]
+        have : (fun (a : Name × Option Val) => (keyNotIn (zs.map Prod.fst) a && keyNe z a)) =
+            (fun a => (keyNe z a && keyNotIn (zs.map Prod.fst) a)) := by
+          funext a; exact Bool.and_comm _ _
+        rw [this, ← List.filter_filter, ih1, hfil]
+      · intro zd hzd
+        simp only [List.mem_cons] at hzd
+        rcases hzd with rfl | hzd
+        · show get? z fb'.posSig = some d
+          rw [hd z hznot, hget]
+        · exact ih2 zd hzd
+      · show (z :: zs.map Prod.fst).Nodup
+        exact List.nodup_cons.mpr ⟨hznot, ih3⟩
+      · intro z' hz'
+        simp only [List.map_cons, List.mem_cons] at hz'
+        rcases hz' with rfl | hz'
+        · exact ⟨hz1, hz2⟩
+        · obtain ⟨h1, h2⟩ := ih4 z' hz'
+          exact ⟨fun ha => h1 (hsub z' ha), fun hk' => h2 (hkw ▸ hk')⟩
+
 end C13
